@@ -71,6 +71,7 @@ void fp_mix(const void* p, size_t n);
 void fp_mix_u64(uint64_t v);
 bool trace_build(); // true when the access callbacks are linked and were seen at least once / compiled in
 bool in_parallel();
+bool in_any_region(); // true inside any parallel construct, including serialised (team of one) regions
 
 // Run n simulated caller threads (tid 0 = calling thread) under the scheduler and monitor.
 void run_callers(int n, const std::function<void(int)>& body);
